@@ -642,11 +642,19 @@ func (u *UlimitsConfig) DecodeMapstructure(value interface{}) error {
 		u.Single = 0
 		soft, ok := v["soft"]
 		if ok {
-			u.Soft = soft.(int)
+			i, isInt := soft.(int)
+			if !isInt {
+				return fmt.Errorf("unexpected value type %T for ulimit soft", soft)
+			}
+			u.Soft = i
 		}
 		hard, ok := v["hard"]
 		if ok {
-			u.Hard = hard.(int)
+			i, isInt := hard.(int)
+			if !isInt {
+				return fmt.Errorf("unexpected value type %T for ulimit hard", hard)
+			}
+			u.Hard = i
 		}
 	default:
 		return fmt.Errorf("unexpected value type %T for ulimit", value)
